@@ -1,0 +1,51 @@
+//go:build verif
+
+package bridgesync
+
+import (
+	"context"
+	"database/sql"
+
+	"github.com/agglayer/aggkit/log"
+	"github.com/agglayer/aggkit/sync"
+)
+
+// VerifProcessor exposes the real bridge processor to the external verification
+// harness (/verif). Only compiled with -tags verif.
+type VerifProcessor struct {
+	p *processor
+}
+
+// NewVerifProcessor builds the real processor on dbPath.
+func NewVerifProcessor(dbPath string, name string) (*VerifProcessor, error) {
+	p, err := newProcessor(dbPath, name, log.WithFields("module", name))
+	if err != nil {
+		return nil, err
+	}
+	return &VerifProcessor{p: p}, nil
+}
+
+func (v *VerifProcessor) ProcessBlock(ctx context.Context, b sync.Block) error {
+	return v.p.ProcessBlock(ctx, b)
+}
+
+func (v *VerifProcessor) Reorg(ctx context.Context, firstReorgedBlock uint64) error {
+	return v.p.Reorg(ctx, firstReorgedBlock)
+}
+
+func (v *VerifProcessor) GetLastProcessedBlock(ctx context.Context) (uint64, error) {
+	return v.p.GetLastProcessedBlock(ctx)
+}
+
+func (v *VerifProcessor) IsHalted() bool { return v.p.isHalted() }
+
+func (v *VerifProcessor) DB() *sql.DB { return v.p.db }
+
+// Facade returns a *BridgeSync whose queries are served by this processor
+// (no driver, no downloader, no eth client).
+func (v *VerifProcessor) Facade(originNetwork uint32) *BridgeSync {
+	return &BridgeSync{processor: v.p, originNetwork: originNetwork}
+}
+
+// VerifProcessorOf returns the processor behind a fully built *BridgeSync.
+func VerifProcessorOf(s *BridgeSync) *VerifProcessor { return &VerifProcessor{p: s.processor} }
